@@ -155,6 +155,21 @@ where
                 Ok(Some(nz)) if !zero => ex.produce("NonZero::new(Boxed)", "any", Kind::NzBoxed, bw(nz.as_ref()), inp.clone()),
                 r => ex.reject("NonZero::new(Boxed) on zero", "any", r.map(|o| o.is_none() && zero), false, inp.clone()),
             }
+            // transformations of an already valid NonZero<BoxedUint>: widen to every precision 64..=64(N+2); a smaller
+            // target must be refused (documented panic), never produce a truncated - possibly zero - wrapper
+            if !zero {
+                if let Ok(Some(nz)) = guard(|| ct(NonZero::new(xa.clone()))) {
+                    for tl in 1..=N + 2 {
+                        let prec = 64 * tl as u32;
+                        let inp2 = vec![inp[0].clone(), format!("widen to {prec} bits")];
+                        match guard(|| nz.widen(prec)) {
+                            Ok(wd) if tl >= N => ex.produce("NonZero<Boxed>::widen", "any", Kind::NzBoxed, bw(wd.as_ref()), inp2),
+                            Ok(wd) => ex.reject("NonZero<Boxed>::widen to a smaller precision", "any", Ok(false && is_zero(&bw(wd.as_ref()))), true, inp2),
+                            Err(m) => ex.reject("NonZero<Boxed>::widen to a smaller precision", "any", Err(m), tl < N, inp2),
+                        }
+                    }
+                }
+            }
             // NonZero<Limb>
             let la = Limb(a[0]);
             let lz = a[0] == 0;
